@@ -90,6 +90,7 @@ func plan(c *Ctx, seeds []*Seed, pc planCfg) []Case {
 		}
 	}
 	classSeen := map[string]int{}
+	quickSeen := map[string]int{}
 	hdrSeen := map[string]int{}
 	bySeedFam := map[string][]*Seed{}
 	for _, s := range seeds {
@@ -122,6 +123,19 @@ func plan(c *Ctx, seeds []*Seed, pc planCfg) []Case {
 		}
 		if pc.thorough {
 			div = (div + 3) / 4
+		}
+		// quick tier: only the first two streams of every (codec, components) class get the dense
+		// sweeps (truncation at every offset, header byte x value, havoc); the other geometries of
+		// the class get every offset of the header and a sample
+		qcls := s.Name
+		if i := strings.Index(qcls, "-"); i > 0 {
+			qcls = qcls[:i]
+		}
+		qcls += fmt.Sprintf("/%d", s.FI.SPP)
+		quickSeen[qcls]++
+		rep := pc.thorough || quickSeen[qcls] <= 2
+		if !rep {
+			div = max(div, 6)
 		}
 		// A1. truncation at every offset of the small streams (header + a sample for large ones)
 		dense := pc.denseTrunc
@@ -189,6 +203,17 @@ func plan(c *Ctx, seeds []*Seed, pc planCfg) []Case {
 			fm = fieldMutantsJ2K(s.Data, rng)
 		case famRLE:
 			fm = fieldMutantsRLE(s.Data, rng)
+		}
+		if !rep {
+			// mutants that end in a fatal out-of-memory abort cost a child restart each: class
+			// representatives only
+			var keep []mutant
+			for _, m := range fm {
+				if m.mut != "struct.foreign-sof" && m.mut != "field.dims65535" {
+					keep = append(keep, m)
+				}
+			}
+			fm = keep
 		}
 		if !pc.thorough {
 			// quick tier: the first two seeds of every (codec, components) class keep all field
@@ -449,7 +474,11 @@ func thin(cs []Case, budgetMs int64, rng *Rand) (kept []Case, dropped int) {
 		if cs[i].Cost >= 2 {
 			k := cs[i].Entry + "|" + cs[i].Mut
 			seen[k]++
-			if seen[k] > 3 && float64(rng.U64()>>11)/float64(1<<53) > p {
+			minKeep := 3
+			if cs[i].Cost >= 1000 {
+				minKeep = 1 // very expensive cases (seconds each): one per (entry point, mutator)
+			}
+			if seen[k] > minKeep && float64(rng.U64()>>11)/float64(1<<53) > p {
 				dropped++
 				continue
 			}
@@ -854,7 +883,7 @@ func runC08(c *Ctx) {
 			}
 		}
 		c.R.Note("seed corpus: %d valid streams (%d with an estimated decode cost >= 40 ms get thinned mutation sets)", len(seeds), slow)
-		pc := planCfg{thorough: c.Thor, byteValPer: 50, havocPer: 25, randomPerFam: 2500, splices: 2000, rleFI: 2000, denseTrunc: 600}
+		pc := planCfg{thorough: c.Thor, byteValPer: 60, havocPer: 30, randomPerFam: 1500, splices: 1200, rleFI: 1500, denseTrunc: 600}
 		if c.Thor {
 			pc.byteValPer, pc.havocPer, pc.randomPerFam, pc.splices, pc.rleFI, pc.denseTrunc = 1500, 600, 60000, 60000, 40000, 3000
 		}
@@ -886,9 +915,9 @@ func runC08(c *Ctx) {
 	doneRoot := map[string]bool{}
 	for _, h := range hs {
 		k := rootOf(h.sig)
-		budget := 30
+		budget := 16
 		if !doneRoot[k] {
-			budget = 300
+			budget = 160
 			doneRoot[k] = true
 		}
 		if c.Thor {
@@ -1103,7 +1132,16 @@ func runC09(c *Ctx) {
 							ff := s.FI
 							f = &ff
 						}
-						all = append(all, Case{Entry: hn, Data: d, FI: f, Seed: s.Name, Mut: m.mut, Fam: s.Fam, Cost: s.CostMs})
+						cst := s.CostMs
+						if dd := SniffAny(d); dd.Found { // cost follows the INFLATED declaration
+							n := int64(satMul3(dd.W, dd.H, dd.C))
+							if s.Fam == famJ2K {
+								cst = max(cst, 2+n/400)
+							} else {
+								cst = max(cst, 1+n/20000)
+							}
+						}
+						all = append(all, Case{Entry: hn, Data: d, FI: f, Seed: s.Name, Mut: m.mut, Fam: s.Fam, Cost: cst})
 					}
 					rot++
 				}
@@ -1131,7 +1169,7 @@ func runC09(c *Ctx) {
 			cases = append(cases, all[i])
 		}
 		shuffle(cases, c.Rng.Fork())
-		budget := int64(16) * 10_000
+		budget := int64(16) * 35_000
 		if c.Thor {
 			budget = int64(16) * 500_000
 		}
